@@ -521,10 +521,44 @@ class Interp:
             o = h.objs[v.name]
             if o['__class__'] == 'dict':
                 return [k for k, _ in o['entries']]
-            it = h.module.method(o['__class__'], '__iter__')
-            if it is not None:
-                return self.seq(self.call(Closure(it.node, {}, v, it.cls), []))
+            oi_ = self.obj_iter(v)
+            if oi_ is not None:
+                return oi_.drain()
         raise AnalysisError('heap model: cannot iterate %r' % (v,))
+
+    def obj_iter_possible(self, v):
+        h = self.h
+        return isinstance(v, Ref) and h.objs[v.name]['__class__'] in h.module.classes and (
+            h.module.method(h.objs[v.name]['__class__'], '__next__') is not None or h.module.method(h.objs[v.name]['__class__'], '__iter__') is not None)
+
+    def obj_iter(self, v):
+        """the iterator of an object of a class of the module: what its __iter__ hands out, or -- for a class with __next__ (an iterator:
+        collections.abc.Iterator gives it `__iter__ = return self`) -- the object itself, asked item by item"""
+        h = self.h
+        if not (isinstance(v, Ref) and h.objs[v.name]['__class__'] in h.module.classes):
+            return None
+        cn_ = h.objs[v.name]['__class__']
+        it = h.module.method(cn_, '__iter__')
+        if it is not None:
+            r_ = self.call(Closure(it.node, {}, v, it.cls), [])
+            if isinstance(r_, PyIter):
+                return r_
+            if isinstance(r_, Ref) and r_.name != v.name:
+                return self.obj_iter(r_) or PyIter(self.seq(r_))
+            if not isinstance(r_, Ref):
+                return PyIter(self.seq(r_))
+        nx = h.module.method(cn_, '__next__')
+        if nx is None:
+            return None
+
+        def producer(v=v, nx=nx):
+            try:
+                return (True, self.call(Closure(nx.node, {}, v, nx.cls), []))
+            except Raised as x_:
+                if x_.exc == 'StopIteration':
+                    return (False, None)
+                raise
+        return PyIter([], producer)
 
     def call(self, fn, args, kwargs=None):
         """fn: Closure"""
@@ -1449,6 +1483,19 @@ class Interp:
             if isinstance(base0, (set, frozenset)):
                 a2 = [set(self.seq(a)) if not isinstance(a, (str, int)) or fn.attr not in ('add', 'discard') else a for a in args]
                 return getattr(base0, fn.attr)(*a2)
+        if isinstance(fn, ast.Name) and fn.id == 'enumerate' and 'enumerate' not in env and args and set(kwargs) <= {'start'} and (
+                isinstance(args[0], PyIter) or self.obj_iter_possible(args[0])):
+            # enumerate over an iterator: numbered as the items are asked for (the iterator may be read by others in between)
+            st_ = args[1] if len(args) == 2 else kwargs.get('start', 0)
+            src_ = args[0] if isinstance(args[0], PyIter) else self.obj_iter(args[0])
+            cnt_ = [st_]
+
+            def producer(src_=src_, cnt_=cnt_):
+                if not src_.has_next():
+                    return (False, None)
+                cnt_[0] += 1
+                return (True, (cnt_[0] - 1, src_.take()))
+            return PyIter([], producer)
         if isinstance(fn, ast.Name) and fn.id == 'enumerate' and 'enumerate' not in env and (len(args) == 2 or 'start' in kwargs) and set(kwargs) <= {'start'}:
             st_ = args[1] if len(args) == 2 else kwargs['start']
             if not isinstance(st_, int) or isinstance(st_, bool):
@@ -1482,6 +1529,15 @@ class Interp:
                 if rv is not None:
                     return self.seq(self.call(Closure(rv.node, {}, args[0], rv.cls), []))
             return list(reversed(self.seq(args[0])))
+        if isinstance(fn, ast.Name) and fn.id == 'next' and args and isinstance(args[0], Ref) and h.objs[args[0].name]['__class__'] in h.module.classes \
+                and h.module.method(h.objs[args[0].name]['__class__'], '__next__') is not None:
+            nx_ = h.module.method(h.objs[args[0].name]['__class__'], '__next__')
+            try:
+                return self.call(Closure(nx_.node, {}, args[0], nx_.cls), [])          # next(obj): the class's own __next__
+            except Raised as x_:
+                if x_.exc == 'StopIteration' and len(args) > 1:
+                    return args[1]
+                raise
         if isinstance(fn, ast.Name) and fn.id == 'next' and args:
             if isinstance(args[0], PyIter):
                 itr = args[0]
@@ -1521,6 +1577,10 @@ class Interp:
         if isinstance(fn, ast.Name) and fn.id in ('list', 'tuple', 'iter') and len(args) == 1:
             if fn.id == 'iter' and isinstance(args[0], PyIter):
                 return args[0]              # iter() of an iterator is the iterator
+            if fn.id == 'iter' and self.obj_iter_possible(args[0]):
+                oi_ = self.obj_iter(args[0])
+                if oi_ is not None:
+                    return oi_
             items = self.seq(args[0])
             if fn.id == 'iter':
                 return PyIter(items)        # ONE position shared by everybody who reads from it (an outer and an inner loop over the same stream)
@@ -1600,6 +1660,25 @@ class Interp:
             return self.apply(('structmethod', args[0], fn.attr), args[1:], kwargs)
         if isinstance(fn, ast.Name) and fn.id == 'zip' and 'zip' not in env and 'zip' not in h.hooks and args and not kwargs:
             return list(zip(*[self.seq(a_) for a_ in args]))        # (eager: the sequences of the model are finite)
+        if isinstance(fn, ast.Attribute) and fn.attr in ('popleft', 'appendleft', 'extendleft'):
+            base = self.ev(fn.value, env, cls)
+            if h.is_list(base):
+                # the left-end operations of collections.deque (modelled as a list)
+                items = h.items(base)
+                h.touch(base.name)
+                if fn.attr == 'popleft':
+                    if not items:
+                        raise Raised('IndexError', h.version, e.lineno)
+                    return items.pop(0)
+                if fn.attr == 'appendleft':
+                    items.insert(0, args[0])
+                else:
+                    for x_ in self.seq(args[0]):
+                        items.insert(0, x_)
+                ml_ = h.objs[base.name].get('#maxlen')
+                if isinstance(ml_, int):
+                    del items[ml_:]
+                return None
         if isinstance(fn, ast.Attribute) and fn.attr in ('append', 'remove', 'insert', 'index', 'pop', 'extend', 'clear', 'format', 'count'):
             base = self.ev(fn.value, env, cls)
             if h.is_list(base):
@@ -2414,6 +2493,8 @@ class Interp:
                     while itv.has_next():
                         yield itv.take()
                 items = pull()
+            elif self.obj_iter_possible(itv) and self.obj_iter(itv) is not None and False:
+                items = []
             elif self.h.is_list(itv):
                 # a list is iterated by position over its *current* content (Python's list iterator): a body that removes or
                 # inserts elements while iterating skips or repeats elements exactly as it would at run time
